@@ -3,13 +3,13 @@ module verifharness
 go 1.23.8
 
 require (
+	fortio.org/log v1.17.2
 	fortio.org/terminal v0.30.0
 	grol.io/grol v0.0.0
 )
 
 require (
 	fortio.org/cli v1.10.0 // indirect
-	fortio.org/log v1.17.2 // indirect
 	fortio.org/safecast v1.0.0 // indirect
 	fortio.org/sets v1.3.0 // indirect
 	fortio.org/struct2env v0.4.2 // indirect
